@@ -138,48 +138,40 @@ func (fl *c16Flow) startFlags(devCall *ast.CallExpr) []types.Object {
 	}
 	seen := map[types.Object]bool{}
 	var out []types.Object
-	var leaves func(e ast.Expr)
-	leaves = func(e ast.Expr) {
-		e = ast.Unparen(e)
-		switch x := e.(type) {
-		case *ast.UnaryExpr:
-			if x.Op == token.NOT {
-				leaves(x.X)
-			}
-		case *ast.BinaryExpr:
-			if x.Op == token.LAND || x.Op == token.LOR {
-				leaves(x.X)
-				leaves(x.Y)
-			}
-		case *ast.Ident:
-			o, ok := kit.ObjOf(info, x).(*types.Var)
-			if !ok || o.IsField() || seen[o] || rd.unsafe[o] {
-				return
-			}
-			if b, ok := o.Type().Underlying().(*types.Basic); !ok || b.Kind() != types.Bool {
-				return
-			}
-			if loop.Pos() <= o.Pos() && o.Pos() < loop.End() {
-				return // declared inside the loop
-			}
-			if o.Parent() == nil || !o.Parent().Contains(devCall.Pos()) {
-				return
-			}
-			seen[o] = true
-			out = append(out, o)
-		}
-	}
+	assigned := map[*ast.Ident]bool{}
 	ast.Inspect(loop.Body, func(n ast.Node) bool {
-		switch x := n.(type) {
-		case *ast.FuncLit:
-			return false
-		case *ast.IfStmt:
-			leaves(x.Cond)
-		case *ast.ForStmt:
-			if x.Cond != nil {
-				leaves(x.Cond)
+		if as, ok := n.(*ast.AssignStmt); ok {
+			for _, l := range as.Lhs {
+				if id, ok := ast.Unparen(l).(*ast.Ident); ok {
+					assigned[id] = true
+				}
 			}
 		}
+		return true
+	})
+	ast.Inspect(loop.Body, func(n ast.Node) bool {
+		if _, ok := n.(*ast.FuncLit); ok {
+			return false
+		}
+		x, ok := n.(*ast.Ident)
+		if !ok || assigned[x] {
+			return true
+		}
+		o, ok := info.Uses[x].(*types.Var)
+		if !ok || o.IsField() || seen[o] || rd.unsafe[o] {
+			return true
+		}
+		if b, ok := o.Type().Underlying().(*types.Basic); !ok || b.Kind() != types.Bool {
+			return true
+		}
+		if loop.Pos() <= o.Pos() && o.Pos() < loop.End() {
+			return true // declared inside the loop
+		}
+		if o.Parent() == nil || !o.Parent().Contains(devCall.Pos()) {
+			return true
+		}
+		seen[o] = true
+		out = append(out, o)
 		return true
 	})
 	return out
@@ -194,6 +186,25 @@ func (fl *c16Flow) judgeStartFlag(s kit.S, flag types.Object, n kit.Affine, okN 
 	}
 	if k, isC := n.Const(); isC && k == 0 && val == "false" {
 		return c16V("ok", "nothing moved, %s is false", flag.Name())
+	}
+	// `bytes.Count(b[:k], {0}) != k` decided on the path: exactly "some byte of b[0:k] is non-zero"
+	for _, k := range s.Keys() {
+		if strings.HasPrefix(k, "a:nz:") {
+			if K, ok := fl.tab[strings.TrimPrefix(k, "a:nz:")]; ok {
+				if d, isC := fl.substEq(K, s).Sub(n).Const(); isC && d == 0 {
+					want := "false"
+					if s.Get(k) == "T" {
+						want = "true"
+					}
+					if val == want {
+						return c16V("ok", "%s is the outcome of counting the delimiters among all %s moved bytes", flag.Name(), n.String())
+					}
+					if val != "" {
+						return c16V("viol", "%s is %s at the first device read although the count of delimiters among the %s moved bytes says the opposite", flag.Name(), val, n.String())
+					}
+				}
+			}
+		}
 	}
 	switch val {
 	case "true":
@@ -347,6 +358,135 @@ func (fl *c16Flow) intAtomsConsistent(s kit.S) bool {
 			holds = c != 0
 		}
 		if holds != (s.Get(k) == "T") {
+			return false
+		}
+	}
+	return true
+}
+
+// countAtom recognises `bytes.Count(<b[0:k]>, D) != k` (== , <, also mirrored)
+// where D is a []byte holding the single byte 0: "some byte of b[0:k] is not a
+// delimiter".  Atom id "nz:<k>".
+func (fl *c16Flow) countAtom(e ast.Expr) (string, bool, bool) {
+	rd := fl.rd
+	info := rd.f.Info()
+	a, b, op, isCmp := kit.CmpAtom(e)
+	if !isCmp {
+		return "", false, false
+	}
+	call, ok := ast.Unparen(a).(*ast.CallExpr)
+	if !ok || !kit.CallIs(info, call, "bytes.Count") {
+		call, ok = ast.Unparen(b).(*ast.CallExpr)
+		if !ok || !kit.CallIs(info, call, "bytes.Count") {
+			return "", false, false
+		}
+		a, b = b, a
+		switch op {
+		case token.LSS:
+			op = token.GTR
+		case token.GTR:
+			op = token.LSS
+		case token.LEQ:
+			op = token.GEQ
+		case token.GEQ:
+			op = token.LEQ
+		}
+	}
+	if len(call.Args) != 2 || !fl.isView(call.Args[0]) || !c16IsZeroDelimiter(rd.f, call.Args[1]) {
+		return "", false, false
+	}
+	lo, hi, ok := kit.SliceBounds(info, call.Args[0], rd.buf)
+	if !ok {
+		return "", false, false
+	}
+	if k, isC := lo.Const(); !isC || k != 0 {
+		return "", false, false
+	}
+	other, ok := rd.aff(b)
+	if !ok {
+		return "", false, false
+	}
+	if d, isC := other.Sub(hi).Const(); !isC || d != 0 {
+		return "", false, false
+	}
+	// count <= k always: `!=` and `<` mean "some byte is non-zero", `==` and `>=` the opposite
+	switch op {
+	case token.NEQ, token.LSS:
+		return "nz:" + fl.intern(hi), false, true
+	case token.EQL, token.GEQ:
+		return "nz:" + fl.intern(hi), true, true
+	}
+	return "", false, false
+}
+
+// c16IsZeroDelimiter: e is []byte{0} or a package-level variable initialised
+// with it that nothing in the package assigns.
+func c16IsZeroDelimiter(f *kit.Func, e ast.Expr) bool {
+	info := f.Info()
+	isLit := func(x ast.Expr) bool {
+		cl, ok := ast.Unparen(x).(*ast.CompositeLit)
+		if !ok || len(cl.Elts) != 1 || !c16IsByteSlice(info.TypeOf(cl)) {
+			return false
+		}
+		v, ok := kit.ConstInt(info, cl.Elts[0])
+		return ok && v == 0
+	}
+	if isLit(e) {
+		return true
+	}
+	o, ok := kit.ObjOf(info, e).(*types.Var)
+	if !ok || o.Pkg() == nil || o.Parent() != o.Pkg().Scope() {
+		return false
+	}
+	initOK := false
+	for _, file := range f.Pkg.Syntax {
+		for _, d := range file.Decls {
+			gd, ok := d.(*ast.GenDecl)
+			if !ok {
+				continue
+			}
+			for _, sp := range gd.Specs {
+				vs, ok := sp.(*ast.ValueSpec)
+				if !ok {
+					continue
+				}
+				for i, nm := range vs.Names {
+					if info.Defs[nm] == o && i < len(vs.Values) && isLit(vs.Values[i]) {
+						initOK = true
+					}
+				}
+			}
+		}
+	}
+	if !initOK {
+		return false
+	}
+	// never assigned, element never written, address never taken
+	for _, g := range f.Prog.Funcs(f.PkgRel()) {
+		if g.Body == nil {
+			continue
+		}
+		bad := false
+		ast.Inspect(g.Body, func(n ast.Node) bool {
+			switch x := n.(type) {
+			case *ast.AssignStmt:
+				for _, l := range x.Lhs {
+					l = ast.Unparen(l)
+					if ix, ok := l.(*ast.IndexExpr); ok {
+						l = ast.Unparen(ix.X)
+					}
+					if kit.ObjOf(info, l) == o {
+						bad = true
+					}
+				}
+			case *ast.UnaryExpr:
+				if x.Op == token.AND && kit.ObjOf(info, x.X) == o {
+					bad = true
+				}
+			}
+			return !bad
+		})
+		if bad {
 			return false
 		}
 	}
